@@ -4,6 +4,7 @@ CONSTANTS
   Shard = 0
   NShards = 1
   DivMax = 16
+  LemmaStep = 1
 INVARIANT DivIsTab16
 INVARIANT DivIsTab64
 INVARIANT InRange
